@@ -134,7 +134,7 @@ func runC01(c *Case) {
 	}
 	nkeys := r.Range(1, 3)
 	epn := []int{4096, 4096, 2, 3}[r.Intn(4)]
-	nst := r.Range(12, 30)
+	nst := r.Range(16, 40)
 	// phase A: some writers fork from the empty table, the others join later
 	w, err := newWorld(c, r.Range(1, 3), epn)
 	defer w.close()
